@@ -256,7 +256,9 @@ pub fn run_step(ws: &Ws, step: &Value) -> Value {
         }
         "mktree" => {
             let path = p("path");
-            let node: Node = match serde_json::from_value(step["tree"].clone()) {
+            // "@WS@" in symlink targets stands for the absolute path of this workspace
+            let tree_json = serde_json::to_string(&step["tree"]).unwrap_or_default().replace("@WS@", &ws.root.to_string_lossy());
+            let node: Node = match serde_json::from_str(&tree_json) {
                 Ok(n) => n,
                 Err(e) => return json!({"result": "harness_error", "msg": format!("{e}")}),
             };
